@@ -10,5 +10,7 @@ fn main() {
         let line = line.unwrap();
         let res = xeh_verif_harness::dispatch(&line);
         writeln!(out, "{}", res).unwrap();
+        // flushed per case: if a later case kills the process its predecessors are not lost
+        out.flush().unwrap();
     }
 }
